@@ -481,7 +481,87 @@ impl Hist {
         r.count_n("rich.cost_ms.oracle", t0.elapsed().as_millis() as u64);
     }
 
+    /// C18 (answers of a reader racing with the writer): a thread asks `get_cells_capacity` for a
+    /// few keys all the time while this thread appends / rolls back; every answer names a tip and
+    /// must be the model's sum at exactly that tip.
     fn sync_rocksdb(&mut self, r: &mut Report, keyset: &mut HashSet<u64>) {
+        let racing = self.assert && self.rng.chance(350, 1000) && self.idx_tip().map(|(_, t)| self.tg.rc.contains(&t)).unwrap_or(false);
+        if !racing {
+            return self.sync_rocksdb_inner(r, keyset);
+        }
+        let tip = self.idx_tip().unwrap().1;
+        let m = self.model_at(&tip);
+        let pool = keys::script_pool(&m);
+        let mut krng = self.rng.fork(0x7ace);
+        let sks: Vec<model::SK> = keys::gen_keys(&mut krng, &m, &pool, 12).into_iter().map(|(_, sk)| sk).filter(|sk| sk.mode != Some(model::Mode::Partial)).take(4).collect();
+        let stop = std::sync::atomic::AtomicBool::new(false);
+        let hd = self.idx.handle();
+        let mut answers: Vec<(usize, Result<Option<(u64, u64, H)>, String>)> = vec![];
+        let mut reader_panicked = false;
+        std::thread::scope(|s| {
+            let (stop, sks, hd) = (&stop, &sks, &hd);
+            let th = s.spawn(move || {
+                let mut out = vec![];
+                let mut i = 0usize;
+                while !stop.load(std::sync::atomic::Ordering::SeqCst) && out.len() < 3000 && !sks.is_empty() {
+                    let k = i % sks.len();
+                    out.push((k, oracle::rpc_capacity(hd, &sks[k])));
+                    i += 1;
+                }
+                out
+            });
+            self.sync_rocksdb_inner(r, keyset);
+            stop.store(true, std::sync::atomic::Ordering::SeqCst);
+            match th.join() {
+                Ok(a) => answers = a,
+                Err(_) => reader_panicked = true,
+            }
+        });
+        if !self.assert {
+            // the history left the retention inside this round: observed only
+            r.count("race.rounds_that_left_the_retention");
+            return;
+        }
+        if reader_panicked {
+            let msg = panic_store().lock().unwrap().values().last().cloned().unwrap_or_default();
+            r.violation("get_cells_capacity.panicked@concurrent_reader", format!("a get_cells_capacity call racing with append / rollback panicked: {msg}"), json!({"history": self.info}));
+            return;
+        }
+        r.count("race.rounds_with_a_concurrent_reader");
+        let mut tips: HashSet<H> = HashSet::new();
+        for (k, ans) in answers {
+            let sk = &sks[k];
+            r.count("race.concurrent_capacity_answers");
+            let got = match ans {
+                Ok(g) => g,
+                Err(e) => {
+                    r.violation(&format!("get_cells_capacity.unexpected_error@concurrent_reader.{}", oracle::tag_pub(sk)), format!("get_cells_capacity failed while the indexer was appending / rolling back: {e}"), json!({"history": self.info, "search_key": keys::to_json(sk)}));
+                    continue;
+                }
+            };
+            let Some((_, _, th)) = got else {
+                // no tip yet / nothing matches: judged by the sequential oracle
+                continue;
+            };
+            if !self.tg.rc.contains(&th) {
+                r.violation("get_cells_capacity.unknown_tip@concurrent_reader", "an answer names a block that was never appended".into(), json!({"history": self.info, "search_key": keys::to_json(sk)}));
+                continue;
+            }
+            tips.insert(th);
+            let m = self.model_at(&th);
+            let mut jr = self.rng.fork(0x7acf);
+            let mut ks = HashSet::new();
+            let mut ctx = oracle::Ctx { hd: &hd, m: &m, r, rng: &mut jr, hist: &self.info, keyset: &mut ks, assert: true };
+            ctx.r.eval();
+            ctx.judge_capacity(sk, got);
+        }
+        r.count_n("race.distinct_tips_named_by_concurrent_answers", tips.len() as u64);
+        if tips.len() >= 2 {
+            r.count("race.rounds_with_answers_on_both_sides_of_a_step");
+        }
+    }
+
+    fn sync_rocksdb_inner(&mut self, r: &mut Report, keyset: &mut HashSet<u64>) {
         let main_tip = self.tg.tip();
         let mut rolled = 0u64;
         let mut appended = 0u64;
